@@ -855,7 +855,123 @@ def gen_recv(repo):
     return o
 
 
-GENERATORS = [gen_frame, gen_crc, gen_ids, gen_fmt, gen_types, gen_record, gen_recv]
+def gen_comm(repo):
+    """comm.py: handshake retry counters, timeouts, drain counters, clean-up on failure, receive-loop shapes"""
+    o = Out("Comm")
+    t = parse(repo, "comm.py")
+    C = find_class(t, "CommHandler")
+
+    def tenths(x):
+        v = round(float(x) * 10)
+        if abs(v - float(x) * 10) > 1e-9:
+            raise Missing(f"timeout {x} is not a multiple of 0.1 s")
+        return v
+
+    def counter(fname, var):
+        """(initial literal, exit test `var < 0`, decrement by 1) -> number of attempts = init + 1"""
+        f = find_func(C, fname)
+        src_ = unparse(f)
+        m = re.search(rf"\b{var} = (\d+)\n", src_)
+        if not m or f"{var} -= 1" not in src_ or not re.search(rf"if {var} < 0:", src_):
+            raise Missing(f"{fname}: bounded retry counter `{var}` (init literal, `if {var} < 0`, `{var} -= 1`)")
+        return str(int(m.group(1)) + 1)
+    o.d("connectAttempts", "Nat", lambda: counter("_start", "timeout"), "attempts of _devinfo_get before TimeoutError")
+    o.d("chinfoAttempts", "Nat", lambda: counter("_devinfo_get", "retry"), "attempts per channel before giving up")
+
+    def loop_shape():
+        f = find_func(C, "_start")
+        s_ = unparse(f)
+        ok = re.search(r"while self\._dev is None:\n\s+if timeout < 0:\n(\s+.*\n)*?\s+raise TimeoutError\(msg\)\n\s+self\._dev = self\._devinfo_get\(\)\n\s+timeout -= 1", s_)
+        if not ok:
+            raise Missing("_start: while self._dev is None / raise TimeoutError / _devinfo_get / timeout -= 1")
+        return "true"
+    o.d("connectLoopShape", "Bool", loop_shape)
+
+    def chinfo_shape():
+        f = find_func(C, "_devinfo_get")
+        s_ = unparse(f)
+        ok = re.search(r"while chan is None:\n\s+if retry < 0:\n\s+return None\n\s+chan = self\._nxslib_chinfo\(i\)\n\s+retry -= 1", s_)
+        if not ok:
+            raise Missing("_devinfo_get: while chan is None / if retry < 0: return None / _nxslib_chinfo / retry -= 1")
+        return "true"
+    o.d("chinfoLoopShape", "Bool", chinfo_shape)
+
+    def cleanup():
+        f = find_func(C, "_start")
+        for n in ast.walk(f):
+            if isinstance(n, ast.Try):
+                body = "\n".join(unparse(x) for x in n.body)
+                if "self._devinfo_get()" in body and n.handlers:
+                    h = n.handlers[0]
+                    hs = [unparse(x) for x in h.body]
+                    if h.type is not None and unparse(h.type) in ("Exception", "BaseException") and \
+                       hs == ["self._thrd.thread_stop()", "self._intf.stop()", "raise"]:
+                        return True
+        return False
+    o.d("startCleansUp", "Bool", lambda: lean_bool(cleanup()), "a failed handshake stops the receive thread and the interface, then re-raises")
+
+    def get_timeout(fname, callee):
+        f = find_func(C, fname)
+        for n in ast.walk(f):
+            if isinstance(n, ast.Call) and unparse(n.func) == f"self.{callee}":
+                for k in n.keywords:
+                    if k.arg == "timeout" and isinstance(k.value, ast.Constant):
+                        return str(tenths(k.value.value))
+        raise Missing(f"{fname}: self.{callee}(timeout=<literal>)")
+    o.d("cmninfoTimeout", "Nat", lambda: get_timeout("_nxslib_cmninfo", "_get_frame"), "tenths of a second")
+    o.d("chinfoTimeout", "Nat", lambda: get_timeout("_nxslib_chinfo", "_get_frame"))
+    o.d("ackTimeoutEnable", "Nat", lambda: get_timeout("_channel_enable", "_get_ack"))
+    o.d("ackTimeoutDiv", "Nat", lambda: get_timeout("_channel_div", "_get_ack"))
+    o.d("ackTimeoutStart", "Nat", lambda: get_timeout("stream_start", "_get_ack"))
+    o.d("ackTimeoutStop", "Nat", lambda: get_timeout("stream_stop", "_get_ack"))
+
+    def drain():
+        f = find_func(C, "_drop_all_frames")
+        s_ = unparse(f)
+        m = re.fullmatch(r"def _drop_all_frames\(self\) -> None:\n\s+cntr = (\d+)\n\s+while cntr > 0:\n\s+ret = self\._get_frame\(timeout=([\d.]+)\)\n\s+if not ret:\n\s+cntr -= 1\n\s+cntr = (\d+)\n\s+while cntr > 0:\n\s+ret = self\._get_stream_frame\(timeout=([\d.]+)\)\n\s+if not ret:\n\s+cntr -= 1", s_.strip())
+        if not m:
+            raise Missing("_drop_all_frames shape")
+        return int(m.group(1)), tenths(m.group(2)), int(m.group(3)), tenths(m.group(4))
+    o.d("drainPolls", "Nat", lambda: str(drain()[0]), "empty polls of the response queue")
+    o.d("drainPollTime", "Nat", lambda: str(drain()[1]))
+    o.d("drainStreamPolls", "Nat", lambda: str(drain()[2]))
+    o.d("drainStreamPollTime", "Nat", lambda: str(drain()[3]))
+
+    def get_ack_shape():
+        f = find_func(C, "_get_ack")
+        s_ = unparse(f)
+        if "if self.dev is None or not self.dev.data.ack_supported:\n        return ParseAck(True, 0)" not in s_:
+            raise Missing("_get_ack: immediate success without device / ACK support")
+        if not re.search(r"frame = self\._get_frame\(timeout\)\n\s+if frame is None:\n\s+return ParseAck\(False, -1\)", s_):
+            raise Missing("_get_ack: timeout -> ParseAck(False, -1)")
+        return "true"
+    o.d("getAckShape", "Bool", get_ack_shape)
+
+    def read_hdr():
+        f = find_func(C, "_read_hdr")
+        s_ = unparse(f)
+        empty = bool(re.search(r"rdata = self\._intf\.read\(\)\n\s+if not rdata:\n\s+self\._prev_read = _bytes\n\s+return \(None, None\)\n\s+_bytes \+= rdata", s_))
+        short = bool(re.search(r"_bytes = _bytes\[i:\]\n\s+if len\(_bytes\) < self\._parse\.frame\.hdr_len:\n\s+self\._prev_read = _bytes\n\s+continue", s_))
+        drop1 = bool(re.search(r"if hdr\.err is not EParseError\.NOERR:\n\s+self\._prev_read = _bytes\[1:\]\n\s+continue", s_))
+        nosof = bool(re.search(r"if i < 0:\n\s+self\._prev_read = b''\n\s+return \(None, None\)", s_))
+        return empty, short, drop1, nosof
+    o.d("hdrReturnsOnEmptyRead", "Bool", lambda: lean_bool(read_hdr()[0]), "an empty read stores the buffer and returns")
+    o.d("hdrKeepsShortCandidate", "Bool", lambda: lean_bool(read_hdr()[1]), "start byte with < hdr_len bytes is kept")
+    o.d("hdrDropsOneOnBadHeader", "Bool", lambda: lean_bool(read_hdr()[2]))
+    o.d("hdrDropsAllWithoutSof", "Bool", lambda: lean_bool(read_hdr()[3]))
+
+    def read_frame():
+        f = find_func(C, "_read_frame")
+        s_ = unparse(f)
+        a = bool(re.search(r"while len\(_bytes\) < hdr\.flen:\n\s+rdata = self\._intf\.read\(\)\n\s+if not rdata:\n\s+break\n\s+_bytes \+= rdata", s_))
+        b = bool(re.search(r"if len\(_bytes\) < hdr\.flen:\n\s+self\._prev_read = _bytes\n\s+return None", s_))
+        c = bool(re.search(r"possible_frame = _bytes\[:hdr\.flen\]\n\s+frame_decoded = self\._parse\.frame\.frame_decode\(possible_frame\)\n\s+if frame_decoded\.err is not EParseError\.NOERR:\n\s+self\._prev_read = _bytes\[1:\]\n\s+return None\n\s+self\._prev_read = _bytes\[hdr\.flen:\]\n\s+return frame_decoded", s_))
+        return a and b and c
+    o.d("readFrameShape", "Bool", lambda: lean_bool(read_frame()), "accumulate flen bytes, decode, keep remainder / drop one byte")
+    return o
+
+
+GENERATORS = [gen_frame, gen_crc, gen_ids, gen_fmt, gen_types, gen_record, gen_recv, gen_comm]
 
 
 def write_if_changed(path, text):
